@@ -101,7 +101,7 @@ pub fn run_oracle(name: &str, seed: u64, n: usize, tier: &str) -> util::OracleRe
         "varint" => varint::oracle(&mut rng, n, tier),
         s if s.starts_with("crypto_") => crypto::oracle(s, &mut rng, n, tier),
         "thash_agree" | "hash_vectors" => treehash::oracle(name, &mut rng, n, tier),
-        "alloc_accounting" | "alloc_limits" | "alloc_nodes" => alloc::oracle(name, &mut rng, n, tier),
+        "alloc_accounting" | "alloc_limits" | "alloc_nodes" | "alloc_atom_eq" => alloc::oracle(name, &mut rng, n, tier),
         "classic" => classic::oracle(&mut rng, n, tier),
         "inc_c19" => incremental::oracle(&mut rng, n, tier),
         "serde2026_roundtrip" | "serde2026_blobs" | "intern" => serde2026::oracle(name, &mut rng, n, tier),
